@@ -30,20 +30,39 @@ def _role(argname: str) -> str:
     return a
 
 
-def _store_facts(f, target_attr):
-    """calls self.<target_attr>.store(arg, (QIDS, t), **kw) -> list of (role, qids, kwargs)"""
+def _store_facts(f, target_attr, methods=None, _base=None, _actuals=None):
+    """calls self.<target_attr>.store(arg, (QIDS, t), **kw) -> list of (role, qids, kwargs); a helper method of the same class that
+    is handed self.<target_attr> is followed one level (its parameters are read as the caller's arguments)"""
+    from ..core import inline_locals
     out = []
-    env = {n.targets[0].id: squash(n.value) for n in ast.walk(f) if isinstance(n, ast.Assign) and isinstance(n.targets[0], ast.Name)}
+    base = _base or f"self.{target_attr}"
+    actuals = _actuals or {}
+
+    def txt(node):
+        e = inline_locals(f, node)
+        t = squash(e)
+        return actuals.get(t, t)
     for c in ast.walk(f):
         if isinstance(c, ast.Call) and isinstance(c.func, ast.Attribute) and c.func.attr in ("store", "store_from_mse") \
-                and squash(c.func.value) == f"self.{target_attr}" and len(c.args) == 2:
-            arg = unparse(c.args[0])
+                and squash(c.func.value) == base and len(c.args) == 2:
+            arg = actuals.get(unparse(c.args[0]), unparse(c.args[0]))
             idx = c.args[1]
-            rows = unparse(idx.elts[0]) if isinstance(idx, ast.Tuple) and len(idx.elts) == 2 else unparse(idx)
-            cols = unparse(idx.elts[1]) if isinstance(idx, ast.Tuple) and len(idx.elts) == 2 else None
-            rows_src = env.get(rows, rows)
-            kw = tuple(sorted((k.arg, env.get(unparse(k.value), squash(k.value))) for k in c.keywords))
+            two = isinstance(idx, ast.Tuple) and len(idx.elts) == 2
+            rows = unparse(idx.elts[0]) if two else unparse(idx)
+            cols = actuals.get(unparse(idx.elts[1]), unparse(idx.elts[1])) if two else None
+            rows_src = txt(idx.elts[0]) if two else txt(idx)
+            kw = tuple(sorted((k.arg, txt(k.value)) for k in c.keywords))
             out.append({"arg": arg, "role": _role(arg), "rows": rows, "rows_src": rows_src, "cols": cols, "kw": kw, "node": c})
+        elif methods and _base is None and isinstance(c, ast.Call) and isinstance(c.func, ast.Attribute) and squash(c.func.value) == "self" \
+                and c.func.attr in methods and any(squash(a) == base for a in c.args):
+            g = methods[c.func.attr]
+            ps = params(g)[1:]
+            amap = {p_: unparse(a) for p_, a in zip(ps, c.args)}
+            pbase = next(p_ for p_, a in zip(ps, c.args) if squash(a) == base)
+            sub = _store_facts(g, target_attr, None, _base=pbase, _actuals={k: v for k, v in amap.items() if k != pbase})
+            for x in sub:
+                x["node"] = c
+            out.extend(sub)
     return out
 
 
@@ -54,10 +73,11 @@ def rule_r1(chk):
     m = chk.repo.mod(KMOD)
     kinds = ("predict", "update", "smooth")
     facts = {}
+    meths = m.methods("_OutputStore")
     for k in kinds:
         f = m.func(f"_OutputStore.store_{k}")
         chk.saw(m, f"_OutputStore.store_{k}")
-        facts[k] = {"med": _store_facts(f, f"{k}_med"), "std": _store_facts(f, f"{k}_std"), "f": f}
+        facts[k] = {"med": _store_facts(f, f"{k}_med", meths), "std": _store_facts(f, f"{k}_std", meths), "f": f}
     want_rows = {"state": "self.squid.curr_xi_qids", "u": "self.squid.u_qids", "v": "self.squid.v_qids", "w": "self.squid.w_qids", "y": "self.squid.y_qids"}
     state_kw = (("rhs_indexes", "self.squid.curr_xi_indexes"), ("transform", "self.transform"))
     for k in kinds:
@@ -93,7 +113,7 @@ def rule_r1(chk):
     # sibling agreement med blocks
     sig = {k: sorted((x["role"], x["rows_src"], x["kw"]) for x in facts[k]["med"]) for k in kinds}
     chk.ob("C08-R1", "fords.kalmans._OutputStore[three stores agree]", sig["predict"] == sig["update"] == sig["smooth"],
-           "identical (role, rows, mapping) in all three stores" if sig["predict"] == sig["update"] == sig["smooth"] else f"{sig}", m.rel)
+           "identical (role, rows, mapping) in all three stores" if sig["predict"] == sig["update"] == sig["smooth"] else f"{sig}", m.loc(facts["predict"]["f"]))
     # callers pass arguments by the names the stores expect
     for fn, store, mapping in (("update", "store_update", {"xi": "a", "y": "y", "u": "u", "v": "v", "w": "w"}),
                                ("smooth", "store_smooth", {"xi": "a", "y": "y", "u": "u", "v": "v", "w": "w"})):
